@@ -30,6 +30,13 @@ const wsNamespace = "urn:ietf:params:xml:ns:xmpp-framing"
 // information.
 func Send(rw io.ReadWriter, streamData *stream.Info, ws bool, version stream.Version, lang, to, from, id string) error {
 	streamData.ID = id
+	// Remember which framing was used for the stream header so that Close can
+	// end the stream with the matching element.
+	if ws {
+		streamData.Name = xml.Name{Space: wsNamespace, Local: "open"}
+	} else {
+		streamData.Name = xml.Name{Space: stream.NS, Local: "stream"}
+	}
 	b := bufio.NewWriter(rw)
 	var err error
 	if ws {
